@@ -115,3 +115,6 @@ UNITS.append(dispatch_unit("C02"))
 
 from contracts.apply_actions import apply_actions_unit  # noqa: E402
 UNITS.append(apply_actions_unit("C02"))
+
+from contracts.check_value_key import check_value_key_unit  # noqa: E402
+UNITS.append(check_value_key_unit("C02"))
